@@ -48,6 +48,14 @@ fn main() {
             let states = arg(&args, "--states");
             std::process::exit(e2::crashee_main(&case, &root, &marker, states.as_deref()));
         }
+        "mtcrashee" => {
+            let root = arg(&args, "--root").expect("--root");
+            let out = arg(&args, "--out").expect("--out");
+            let threads: usize = arg(&args, "--threads").and_then(|s| s.parse().ok()).unwrap_or(2);
+            let ops: usize = arg(&args, "--ops").and_then(|s| s.parse().ok()).unwrap_or(10);
+            let flavor: u8 = arg(&args, "--flavor").and_then(|s| s.parse().ok()).unwrap_or(0);
+            std::process::exit(e2fault::mt_crashee(&root, &out, threads, ops, flavor));
+        }
         "check" => {
             if let Some(def) = props::e1(&id) {
                 std::process::exit(driver::check_e1(&def, tier, seed));
@@ -225,6 +233,24 @@ fn main() {
             }
             if let Some(def) = e2drv::e2(&id) {
                 let s = std::fs::read_to_string(file).expect("readable replay file");
+                let raw: serde_json::Value = serde_json::from_str(&s).expect("json");
+                if raw.get("kind").and_then(|k| k.as_str()) == Some("multi-writer") {
+                    // schedule-dependent: retried a few times
+                    let sb = e2::Sandbox::new(&driver::scratch_root().join("mtreplay"));
+                    let g = |k: &str| raw.get(k).and_then(|x| x.as_u64()).unwrap_or(2);
+                    let fault = raw.get("fault").and_then(|x| x.as_str()).unwrap_or("5:eio_write:0").to_string();
+                    for _ in 0..10 {
+                        if let Err(e) = e2fault::mt_fault_check(&sb, g("threads") as usize, g("ops") as usize, g("flavor") as u8, &fault) {
+                            if !e.starts_with("INCONCLUSIVE") {
+                                println!("replay fails: {e}");
+                                println!("VIOLATION property={id} replay={file}");
+                                std::process::exit(1);
+                            }
+                        }
+                    }
+                    println!("replay passes (10 attempts; schedule-dependent)");
+                    std::process::exit(0);
+                }
                 let rp: e2drv::E2Replay = serde_json::from_str(&s).expect("E2 replay file");
                 match e2drv::replay_e2(&def, &rp) {
                     Some(msg) => {
